@@ -12,6 +12,17 @@ OP_NOTE = ("Trusted: TLC; the harness store (harness/modelstore) as an implement
            "implementation traces are TLC-simulated behaviours plus seeded random histories, not all histories.")
 
 CLAIMS = {
+    "C17": dict(level="model_checking", ref="DESIGN.md §3 C17",
+                text="spec/RP.tla (+ RPDesign, RPMBT, RPTrace): state = per browser the attempt whose state / PKCE verifier the RP's signed cookies hold; events "
+                     "StartLogin(b) and Callback(b, attempt named by the state parameter, form of the state parameter, cookie tampering) carry their outcome. "
+                     "TLC checks the transcription of AuthURLHandler / CodeExchangeHandler / CheckQueryCookie against the rules C17.* for two browsers and "
+                     "interleaved attempts; TLC-generated behaviours, seeded random histories and overlapping logins through one handler (race detector) are "
+                     "run against the real handlers with a fake provider that records every token request, and every recorded event is judged by the monitor: "
+                     "a code is exchanged / the application callback runs only if the state equals the state in this browser's genuine state cookie, otherwise "
+                     "the unauthorized handler runs and no request reaches the provider; the code_verifier sent is the one in the pkce cookie whose S256 "
+                     "challenge was put into that attempt's authorization URL; the URL carries client, redirect URI, scopes and state.",
+                technique="TLA+ spec model-checked with TLC; TLC behaviours replayed into the real handlers; recorded traces (incl. concurrent logins under -race) validated by the TLA+ monitor",
+                note="Trusted: TLC; the hand-rolled cookie jar and the fake token endpoint (harness/rpdrv)."),
     "C09": dict(level="exploration", ref="DESIGN.md §3 C09, §4",
                 text="spec/Handler.tla: the per-execution state machine Idle -> Started -> StorageCall* -> Responded (library calls: Returned) has no transition for a "
                      "panic, a second response, storage work after an error response, a value returned for an error status / missing document, or a verifier "
